@@ -1,5 +1,6 @@
 """C07 — Only legal Hamiltonian terms with positive weight are ever stored."""
 from checks import big_scale
+from checks import pure_fns
 from checks import extra_audits
 from checks import api_cov
 LEAN_TARGETS = ["QmcProps.C07", "drv_c06", "drv_c07"]
@@ -58,6 +59,7 @@ RULE = ("same harness as C06 (bin c06, driver drv_c06), seeds shifted so the two
 
 
 def main(ck):
+    pure_fns.run(ck)   # source->Lean translation (group BondContainer: weight bookkeeping of the RVB boundary set), agreement theorems re-checked
     extra_audits.run(ck)
     if ck.lake_build(LEAN_TARGETS):
         ck.audit("QmcProps.C07", ["Qmc.C07." + t for t in THEOREMS])
